@@ -42,6 +42,17 @@ CLAIMS["C03"] = dict(
   text="Decides that every built-in bound action resolves to a registered command (or a frozen reviewed list of unimplemented names), that MatchMain/MatchLocal account for read keys exactly once with the right slices, that each dispatch iteration consumes one key, that the command looked up is the matched bind's and never a macro's, macro binds are re-fed decoded at the tail, and nil commands are not called. The prefix-matching semantics of matchBind are value-level and not decided.",
   ref="§5 C03")
 
+CLAIMS["C07"] = dict(
+  level="other",
+  technique="static analysis: must-pass-through on the SSA CFG, backward value slices from Line.Set/Cursor.Set to the saved-states list, memory-aware dominating guards on the undo index",
+  text="Decides that every command run ends in a save, that Undo/Redo set their flags on every path, that only saved states are ever restored, that Save truncates the redo branch before appending the current text under !skip, that Reset re-arms correctly, and that the undo position is only decremented under pos >= 1 and each items[len-pos] read carries its clamp. The sequence semantics over all command histories are not decided.",
+  ref="§5 C07")
+CLAIMS["C10"] = dict(
+  level="other",
+  technique="static analysis: constant open-flag table, single-write must-pass-through, value slices of the written bytes and returned error, loop-exit inventory of the reader, JSON key/field agreement from struct tags",
+  text="Decides the mechanisms the durability property rests on for every path of the current source: O_APPEND|O_CREATE without O_TRUNC, exactly one write carrying record+terminator, tail inspection or separator before the write, truthful error, unbounded reader token size, tolerant read loop, writer/reader schema agreement. The enumeration of crash points and OS atomicity are not decided.",
+  ref="§5 C10")
+
 NA_REASONS = {
  "C15": "Cycle coverage is arithmetic over a grid whose shape is computed at run time from candidate widths and terminal width; no pairing/ownership/ordering/table clause is a necessary condition, and a bounds proof of rows[y][x] needs the same run-time shape invariants. A check would be a brittle proxy (DESIGN.md §5 C15, §8).",
 }
